@@ -164,8 +164,19 @@ type Arg struct {
 }
 
 type Dir struct {
-	N  string `json:"n"` // skip | include
+	N  string `json:"n"`           // skip | include | tag
+	A  string `json:"a,omitempty"` // argument name ("" = if)
 	If Val    `json:"if"`
+}
+
+func (d Dir) print(b *strings.Builder) {
+	a := d.A
+	if a == "" {
+		a = "if"
+	}
+	b.WriteString(" @" + d.N + "(" + a + ": ")
+	d.If.print(b)
+	b.WriteByte(')')
 }
 
 // Node is one selection.
@@ -197,6 +208,7 @@ type Frag struct {
 type Op struct {
 	Name  string         `json:"name,omitempty"`
 	Vars  []VarDef       `json:"vars,omitempty"`
+	Dirs  []Dir          `json:"dirs,omitempty"` // directives on the operation itself
 	Sel   []*Node        `json:"sel"`
 	Frags []Frag         `json:"frags,omitempty"`
 	JSON  map[string]any `json:"json,omitempty"` // variable values; absent key = not provided
@@ -225,6 +237,7 @@ func cloneSel(s []*Node) []*Node {
 func (o *Op) clone() *Op {
 	c := &Op{Name: o.Name, Next: o.Next}
 	c.Vars = append([]VarDef(nil), o.Vars...)
+	c.Dirs = append([]Dir(nil), o.Dirs...)
 	c.Sel = cloneSel(o.Sel)
 	for _, f := range o.Frags {
 		c.Frags = append(c.Frags, Frag{N: f.N, Cond: f.Cond, Sel: cloneSel(f.Sel)})
@@ -270,9 +283,7 @@ func printSel(b *strings.Builder, sel []*Node) {
 			b.WriteString("..." + n.Name)
 		}
 		for _, d := range n.Dirs {
-			b.WriteString(" @" + d.N + "(if: ")
-			d.If.print(b)
-			b.WriteByte(')')
+			d.print(b)
 		}
 		if n.K != 's' && (n.K == 'i' || len(n.Sel) > 0) {
 			b.WriteByte(' ')
@@ -285,7 +296,7 @@ func printSel(b *strings.Builder, sel []*Node) {
 // Text prints the document.
 func (o *Op) Text() string {
 	var b strings.Builder
-	if o.Name != "" || len(o.Vars) > 0 {
+	if o.Name != "" || len(o.Vars) > 0 || len(o.Dirs) > 0 {
 		b.WriteString("query")
 		if o.Name != "" {
 			b.WriteString(" " + o.Name)
@@ -303,6 +314,9 @@ func (o *Op) Text() string {
 				}
 			}
 			b.WriteByte(')')
+		}
+		for _, d := range o.Dirs {
+			d.print(&b)
 		}
 		b.WriteByte(' ')
 	}
@@ -418,6 +432,9 @@ func (o *Op) addVar(v VarDef, provided bool, val any) {
 // usedVars returns the variables referenced anywhere in the document.
 func (o *Op) usedVars() map[string]bool {
 	used := map[string]bool{}
+	for _, d := range o.Dirs {
+		d.If.varNames(used)
+	}
 	for _, s := range o.sets() {
 		for _, n := range *s.Sel {
 			for _, a := range n.Args {
